@@ -633,7 +633,7 @@ impl Property for C15 {
         }
     }
     fn rule(&self) -> &'static str {
-        "per run one format (SNA, SZX, SCR, TAP, ROM, gzip, VTX), machine and corpus file (independent writers or repository assets); mode sweep: the load is repeated with a read error, a seek error at every asset call index k, with short reads and with both EOF styles (enumeration of fault positions of that load); mode field-sweep: every byte of the SNA header / SZX header and small chunks set to 5 boundary values, one at a time; mode mutate: 12 structure-aware mutations (truncation at structural boundaries +-1, bit flips, length/size/count fields 0,1,max-1,max, non-UTF-8 chunk ids, out-of-range IM/border/page fields, duplicated/shortened chunks, oversize); mode random: random byte strings up to 160 KiB. distinct = (format, machine, outcome, fault kind, chunked?) ; every distinct panic site is its own finding identity"
+        "per run one format (SNA, SZX, SCR, TAP, ROM, gzip, VTX), machine and corpus file (independent writers or repository assets); mode sweep: the load is repeated with a read error, a seek error at every asset call index k, with short reads and with both EOF styles (enumeration of fault positions of that load); mode field-sweep: every byte of the SNA header / SZX header and small chunks set to 5 boundary values, one at a time; mode mutate: 12 structure-aware mutations (truncation at structural boundaries +-1, bit flips, length/size/count fields 0,1,max-1,max, non-UTF-8 chunk ids, out-of-range IM/border/page fields, duplicated/shortened chunks, oversize); mode random: random byte strings up to 160 KiB. TAP cases run a file-derived host history (partial fast loads, PLAY, rewinds, PLAY / load again) so that a failing seek is followed by more deck use; gzip corpus includes a nested gzip of 160 MiB of zeros. distinct = (format, machine, outcome, fault kind, chunked?) ; every distinct panic site is its own finding identity"
     }
     fn state_measure(&self) -> &'static str {
         "none"
